@@ -83,6 +83,7 @@ def className : ErrClass → List Char
   | .rootEmpty => str "root-empty"
   | .dictName => str "dict-name"
   | .arrayType => str "array-type"
+  | .typeExpected => str "type-expected"
   | .dictPrim => str "dict-prim"
   | .pkgIdent => str "pkg-ident"
   | .enumValue => str "enum-value"
